@@ -72,9 +72,22 @@ func parseFloatIs(s string, bits int, v float64) bool {
 //@ extern func strconv.ParseInt(s string, base int, bitSize int) (v int64, err error)
 //@   pure
 //@   ensures fits: err == nil ==> fitsInt(v, bitSize)
+// allDigits / decVal: decimal digit strings and their value (spec functions).
+func allDigits(s string) bool {
+	return len(s) == 0 || '0' <= s[0] && s[0] <= '9' && allDigits(s[1:])
+}
+
+func decVal(s string) int {
+	if len(s) == 0 {
+		return 0
+	}
+	return decVal(s[:len(s)-1])*10 + int(s[len(s)-1]-'0')
+}
+
 //@ extern func strconv.ParseUint(s string, base int, bitSize int) (v uint64, err error)
 //@   pure
-//@   ensures fits: err == nil ==> fitsUint(v, bitSize)
+//@   ensures fits:   err == nil ==> fitsUint(v, bitSize)
+//@   ensures digits: base == 10 && err == nil ==> len(s) > 0 && allDigits(s)
 //@ extern func strconv.Atoi(s string) (v int, err error)
 //@   pure
 //@ extern func strconv.ParseBool(s string) (v bool, err error)
